@@ -13,6 +13,7 @@ commits of findings/C16.txt; the snapshot's behaviour is kept as `spliceOld`, `t
 `cloneWith false` for the counterexample theorems.
 -/
 import Kap.Proofs.C16Ticks
+import Kap.Proofs.C16Zone
 import Kap.Proofs.C16Range
 import Kap.Proofs.C16Gen
 namespace Kap.Props.C16
@@ -247,7 +248,7 @@ theorem historical_equals_live_cron_ending (fires : List Int) (hs : fires.Pairwi
 lists and hence `historical-equals-live`) IS the first live tick after `t` — or `none` exactly when there is none
 (for `t` at or after the start; for the unaligned ticker, on its own grid). -/
 theorem firstLiveAfter_least (sch : Schedule) (s0 t : Int)
-    (hs : match sch with | .every d _ => 0 < d | .cronEvery K => 0 < K | .cronList fires => fires.Pairwise (· < ·))
+    (hs : match sch with | .every d _ => 0 < d | .cronEvery K => 0 < K | .cronList fires => fires.Pairwise (· < ·) | .cronZone tod _ => TodOk tod)
     (ht : match sch with
       | .every _ false => t = s0 ∨ (s0 < t ∧ LiveTick sch s0 t = true)
       | _ => s0 ≤ t) :
@@ -275,6 +276,71 @@ theorem firstLiveAfter_least (sch : Schedule) (s0 t : Int)
     exact isNext_cronEvery K s0 t hs ht
   | .cronList fires, hs, ht =>
     exact isNext_cronList fires hs s0 t ht
+  | .cronZone tod off, hs, ht =>
+    have h := isNext_cronZone tod hs off s0 t ht
+    unfold IsNext at h ⊢; rw [firstLiveAfter_cronZone tod hs off s0 t]; exact h
+
+/-! ### (4b) cron() speaks of the host's clock: the live ticker and the historical list must read the SAME clock -/
+
+/-- **cron in a zone.** `cronexpr.Next` as `Queries` uses it (on `start.Local()`: the host's zone, `off` ahead of UTC)
+answers the first instant after `t` at which the host's clock shows one of the named times of day — for EVERY zone
+offset, every list of named times and every `t`. -/
+theorem cronZoneNext_is_first_firing (tod : List Int) (hok : TodOk tod) (off s0 t : Int) (ht : s0 ≤ t) :
+    IsNext (LiveTick (.cronZone tod off) s0) (cronZoneNext tod off) t := isNext_cronZone tod hok off s0 t ht
+
+/-- Evaluating a schedule in a zone `off` ahead of UTC is evaluating it in UTC on the zone's clock reading. -/
+theorem cronZoneNext_shift (tod : List Int) (off t : Int) :
+    cronZoneNext tod off t = (cronZoneNext tod 0 (t + off)).map (· - off) := by
+  simp only [cronZoneNext, Int.add_zero, Int.sub_zero]
+  cases tod.find? (fun x => decide ((t + off) % dayNs < x)) with
+  | some x => simp
+  | none => cases tod.head? <;> simp
+
+/-- **historical_equals_live** for a cron() naming hours / minutes / seconds on a host in ANY zone: the ranges
+`Queries(start, stop)` lists are exactly those of the instants in the span at which the host's clock shows a named time. -/
+theorem historical_equals_live_cron_zone (tod : List Int) (hok : TodOk tod) (off start stop now offset period : Int) :
+    HistSpec (LiveTick (.cronZone tod off) start) start stop now offset period
+      ((histTicks (cronZoneNext tod off) stop now offset (histFuel start stop) start).map (tickRange offset period)) := by
+  apply historical_equals_live_of_next
+  intro t ht
+  exact isNext_cronZone tod hok off start t (by rcases ht with rfl | ⟨h, _⟩ <;> omega)
+
+/-- **The live cron ticker and the historical list coincide when they read the same clock** — for every zone offset `z`,
+every named-time list, start, span, offset and `now`: what `cronTicker.Start` sends (first `n` ticks, `Next` evaluated
+in the zone of `time.Now()`) up to the end of the span IS the list of ticks `Queries` walks (`Next` evaluated in the
+zone of `start.Local()`). -/
+theorem cron_live_equals_historical_same_zone (tod : List Int) (hne : tod ≠ []) (z stop now offset : Int) (n : Nat) (s0 : Int) :
+    histTicks (cronZoneNext tod z) stop now offset n s0 =
+      (cronLiveIn tod z n s0).takeWhile (fun c => decide (c ≤ stop) && decide (c - offset ≤ now)) :=
+  histTicks_eq_live_takeWhile _ (cronZoneNext_isSome tod hne z) stop now offset n s0
+
+/-- … so the live ticks of a span are exactly the schedule's instants in it, each once, in order (`HistSpec` of the LIVE list). -/
+theorem live_cron_ticks_in_span_exact (tod : List Int) (hok : TodOk tod) (hne : tod ≠ []) (z start stop now offset period : Int) :
+    HistSpec (LiveTick (.cronZone tod z) start) start stop now offset period
+      (((cronLiveIn tod z (histFuel start stop) start).takeWhile (fun c => decide (c ≤ stop) && decide (c - offset ≤ now))).map
+        (tickRange offset period)) := by
+  rw [← cron_live_equals_historical_same_zone tod hne]
+  exact historical_equals_live_cron_zone tod hok z start stop now offset period
+
+/-- Counterexample (what a live ticker that reads the clock in UTC on a host that is not in UTC does — the reason the
+two zones of the model are tied to ONE `time.Local` by the correspondence run `cronlive`): cron() at 09:00, host five
+hours east of UTC, a task started at the Unix epoch (05:00 on the host), span of two days. History lists 09:00 host
+time = 04:00 UTC of each day; a live ticker evaluating in UTC ticks at 09:00 UTC: no historical query is a live one. -/
+theorem cron_live_in_utc_differs_from_history :
+    ∃ (tod : List Int) (zHist zLive stop : Int),
+      TodOk tod ∧
+      histTicks (cronZoneNext tod zHist) stop (stop + 1) 0 5 0 = [4 * 3600000000000, 28 * 3600000000000] ∧
+      (cronLiveIn tod zLive 5 0).takeWhile (fun c => decide (c ≤ stop)) = [9 * 3600000000000, 33 * 3600000000000] :=
+  ⟨[9 * 3600000000000], 5 * 3600000000000, 0, 2 * 86400000000000, ⟨by decide, by decide⟩, by decide, by decide⟩
+
+/-- Counterexample (a defect of the unchanged tree the `cronlive` op shows with shape `end`; not repaired): a cron
+schedule that has ENDED (a year field in the past). `Queries` stops at the zero time `Next` answers; `cronTicker.Start`
+does not test it: `next.Sub(now)` is negative, `time.After` fires at once, and the zero time is sent as a tick — in a
+loop without pause. Those ticks are not on the schedule and the historical list of the span is empty. -/
+theorem ended_cron_live_sends_zero_time :
+    cronLiveTicks (cronListNext [10]) 3 10 = [zeroTime, zeroTime, zeroTime] ∧
+    histTicks (cronListNext [10]) 100 1000 0 5 10 = [] ∧
+    LiveTick (.cronList [10]) 10 zeroTime = false := by decide
 
 /-! ### (5b) no setting crashes the node; the batch carries the window's end -/
 
@@ -409,6 +475,11 @@ example : Reach (some (.atom (.opq 1))) (some (4, 0)) true
     ((newQuery (some (.atom (.opq 1))) (some (4, 0)) true "fill(0);host").setRange (7, 17)) "fill(0);host" :=
   (reach_setRange (reach_new _ _ _ _) _).1
 example : histTicks (cronListNext [10, 41, 69]) 100 1000 0 (histFuel 30 100) 30 = [41, 69] := by decide
+-- a host 3:30 west of UTC, cron() at 00:15:00 and 23:45:30 host time, from the epoch (20:30 on the host) for two days
+example : TodOk [900000000000, 85530000000000] ∧ [900000000000, 85530000000000] ≠ [] := ⟨⟨by decide, by decide⟩, by decide⟩
+example : histTicks (cronZoneNext [900000000000, 85530000000000] (-12600000000000)) 172800000000000 172800000000001 0 9 0 =
+    [11730000000000, 13500000000000, 98130000000000, 99900000000000] := by decide
+example : cronLiveIn [900000000000, 85530000000000] (-12600000000000) 3 0 = [11730000000000, 13500000000000, 98130000000000] := by decide
 example : validDims (some (4, 1)) = true ∧ [10, 41, 69].Pairwise (· < ·) := by decide
 
 example : histTicks (fun t => some (tickerNext 10 true t)) 35 1000 0 (histFuel 5 35) 5 = [10, 20, 30] := by decide
